@@ -67,6 +67,29 @@ def act(cls, extra_locals=None, params=None, **kw):
                  "loop_writeback": {"rule": "{ σ with visited := σ.visited ++ [σ.rule] }"}}, **kw)
 
 
+# ---- loaders of rule.py (Consequent.load, Antecedent.load)
+# Objects: engine = Op.EngineInfo `e`, variable = Op.VarInfo, hedge / term object = the name it was looked up by,
+# `{o.name: o for o in l}` = the list l (get: last entry of the name).  `proposition` is a second reference to the
+# Proposition appended last (alias_last).
+PROP = "Py.Load.Proposition"
+LOAD_EXT = [
+    ("self.text", "text", "String", True),
+    ("_0.split()", "(Py.split {0})", "List String", True, ["String"]),
+    ("engine.output_variables", "(Py.Load.outputs e)", "List Op.VarInfo", True),
+    ("engine.variables", "e.vars", "List Op.VarInfo", True),
+    ("{v.name: v for v in _0}", "{0}", "List Op.VarInfo", True, ["List Op.VarInfo"]),
+    ("_0.get(_1)", "(Py.Load.varGet {0} {1})", "Option Op.VarInfo", True, ["List Op.VarInfo", "String"]),
+    ("Proposition(_0)", "({{ variable_ := {0} }} : Py.Load.Proposition)", PROP, True, ["Op.VarInfo"]),
+    ("_0 in factory", "(e.hedges.contains {0})", "Bool", True, ["String"]),
+    ("factory.construct(_0)", "{0}", "String", True, ["String"]),
+    ("_0.terms", "{0}.terms", "List String", True, ["Op.VarInfo"]),
+    ("{t.name: t for t in _0}", "{0}", "List String", True, ["List String"]),
+    ("_0.get(_1)", "(Py.Load.termGet {0} {1})", "Option String", True, ["List String", "String"]),
+]
+LOAD_FIELDS = {(PROP, "variable"): "Op.VarInfo", (PROP, "hedges"): "List String", (PROP, "term"): "Option String"}
+LOAD_TRUTHY = {"Option Op.VarInfo": "(Py.Load.varTruthy {0})"}
+# ---- end loaders
+
 DEG = {"activation_degree": "X Rat"}
 HEAP = {"activated": "Nat", "activation_degree": "X Rat", "index": "Nat", "activate": "List (X Rat × Nat)"}
 
@@ -93,6 +116,20 @@ PROFILES = [
                                  ("deque()", "[]", "List String", True),
                                  ("' '.join(_0)", "(Py.joinSp {0})", "String", True)],
     },
+    # ---- loaders of rule.py
+    {
+        "name": "Consequent_load", "module": "fuzzylite.rule", "object": "Consequent.load", "file": "CodeLoad",
+        "params": [("e", "Op.EngineInfo"), ("text", "String")],
+        "locals": {"state": "Nat", "conclusions": f"List {PROP}", "output_variables": "List Op.VarInfo", "token": "String",
+                   "variable": "Option Op.VarInfo", "hedge": "String", "terms": "List String", "term": "Option String",
+                   "self_conclusions": f"List {PROP}"},
+        "alias_last": {"proposition": "conclusions"},
+        "record_fields": LOAD_FIELDS, "truthy": LOAD_TRUTHY, "none_init": ["token"],
+        "externals": LOAD_EXT,
+        "stmt_externals": [("self.unload()", "{{ σ with self_conclusions := [] }}", True),
+                           ("factory = settings.factory_manager.hedge", "σ", True)],
+    },
+    # ---- end loaders
     act("General"),
     act("First", dict(DEG, activated="Nat"), [("n", "Nat"), ("t", "X Rat")]),
     act("Last", dict(DEG, activated="Nat"), [("n", "Nat"), ("t", "X Rat")]),
@@ -106,4 +143,5 @@ FILES = {
     "CodeRule": {"imports": ["FlVerif.Op.PyExt"]},
     "CodeFunction": {"imports": ["FlVerif.Op.PyExt"]},
     "CodeActivation": {"imports": ["FlVerif.Op.PyExtAct"]},
+    "CodeLoad": {"imports": ["FlVerif.Op.PyExtLoad"]},  # loaders of rule.py
 }
